@@ -45,7 +45,7 @@ REQUIRED = ["roundtrips", "src_text", "src_bytes", "src_path", "offset_0", "offs
             "rounding_tie_values", "comments_compared", "audit_file_opens", "rewrites_same_object",
             "trees_with_int64_ids",
             "tap_to_swc", "tap_parse_swc", "tap_reset_index_"]
-FLOOR = {"quick": 600, "thorough": 12000}
+FLOOR = {"quick": 500, "thorough": 10000}
 SHARDS = {"quick": 8, "thorough": 16}
 
 OFFSETS = [0, 1, 1, 2, 7, 1000, 2**30]
